@@ -85,6 +85,79 @@ def t4c_specs(dims=(2, 2, 2, 2), at_most=None, at_least=None):
         yield s
 
 
+def leafval(point):
+    """Position-tagged value of a 'v' cell: 1 followed by (coordinate+1) per rank
+    (never 0, 7 or -1; the same values univ.mktree stores)."""
+    v = 1
+    for c in point:
+        v = v * 10 + c + 1
+    return v
+
+
+def cellval(point, cell, default=0):
+    """Value stored for a cell: '0' explicit default, 'z' a stored literal 0 (an
+    ordinary value when the default is not 0), 'v' position-tagged."""
+    if cell == '0':
+        return default
+    if cell == 'z':
+        return 0
+    return leafval(point)
+
+
+def spec_content(spec, depth, default=0, prefix=()):
+    """point -> value of every stored leaf whose value differs from `default`,
+    from the spec alone (cells '-', '0', 'z', 'v')."""
+    out = {}
+    if depth == 1:
+        for i, x in enumerate(spec):
+            if x == '-':
+                continue
+            v = cellval(prefix + (i,), x, default)
+            if v != default:
+                out[prefix + (i,)] = v
+        return out
+    for i, x in enumerate(spec):
+        if x is not None:
+            out.update(spec_content(x, depth - 1, default, prefix + (i,)))
+    return out
+
+
+def tn_specs(dims, alphabet):
+    """Every tree of depth len(dims) over the leaf-cell alphabet: a leaf fiber is
+    any cell tuple (all '-' = a stored empty leaf fiber), an interior fiber any
+    tuple of (None = absent | sub-tree) (all None = a stored empty fiber).
+    Fewest stored leaf elements first."""
+    def w(s):
+        if s is None:
+            return (0, 0)
+        if isinstance(s, str):
+            return (1 if s != '-' else 0, 0)
+        a, b = 0, 1
+        for x in s:
+            wa, wb = w(x)
+            a, b = a + wa, b + wb
+        return (a, b)
+
+    def rec(d):
+        if d == len(dims) - 1:
+            return list(itertools.product(alphabet, repeat=dims[d]))
+        sub = [None] + rec(d + 1)
+        return list(itertools.product(sub, repeat=dims[d]))
+    return sorted(rec(0), key=lambda s: (w(s), repr(s)))
+
+
+def has_empty_interior(spec, depth, below_root_only=True):
+    """Is a fiber above the leaf rank (by default: other than the root) stored
+    without any element?"""
+    def rec(s, d, root):
+        if d == 1:
+            return False
+        if all(x is None for x in s) and not (root and below_root_only):
+            return True
+        return any(rec(x, d - 1, False) for x in s if x is not None)
+    return rec(spec, depth, True)
+
+
 # ---------------------------------------------------------------------------
 # coordinate maps
 
